@@ -106,6 +106,20 @@ def run(ctx):
             else:
                 items = [rng.choice(GG.INPUTS if rng.random() < 0.3 else GG.INPUTS[:7]) for _ in range(m)]
             subs.append(items)
+        # the submissions the answers were written for: each alternative's own expected items (full item credit with the usual tables), also
+        # reordered and with one item replaced -- exercises 'answer credit x list credit' and the partial_credit=False rule at full and near-full credit
+        for alt in canon[:3]:
+            for el in alt['expect'][:2]:
+                if nested:
+                    continue
+                # item = tuple of item-answer dictionaries: submit the expected text of the best-paying one
+                perfect = [max(x, key=lambda d_: d_['grade_decimal'])['expect'][0] if isinstance(x, (list, tuple)) and x and isinstance(x[0], dict) else None for x in el]
+                if not perfect or any(not isinstance(x, str) for x in perfect):
+                    continue
+                subs.append(list(perfect))
+                if len(perfect) > 1:
+                    sh = list(perfect); rng.shuffle(sh); subs.append(sh)
+                    subs.append(perfect[:-1] + [rng.choice(GG.INPUTS[:7])])
         for items in subs:
             variants = [items]
             if len(items) <= 5 and not cfg['ordered']:
